@@ -39,3 +39,36 @@ pub fn run(args: &[String]) {
     vcore::fastc::drop_thread_fastc();
     std::process::exit(0);
 }
+
+/// development aid: type check many files with one compiler instance and print only the match diagnostics
+pub fn run_many(args: &[String]) {
+    let list = std::fs::read_to_string(&args[0]).expect("read list");
+    for f in list.lines() {
+        let Ok(src) = std::fs::read_to_string(f) else { continue };
+        let r = with_fastc(100_000, |fc| vcommon::catch(|| fc.to_ast(&src, OptLevel::Opt0)));
+        println!("FILE {f}");
+        match r {
+            Ok((_, handler, _)) => {
+                let (errs, warns, _) = handler.consume();
+                for e in &errs {
+                    let t = e.to_string();
+                    if t.contains("Non-exhaustive") || t.contains("Internal compiler error") {
+                        println!("  ERROR line {}: {}", e.span().start_line_col_one_index().line, t.lines().next().unwrap_or(""));
+                    }
+                }
+                for w in &warns {
+                    let t = w.warning_content.to_string();
+                    if t.contains("unreachable") {
+                        println!("  WARN line {}: {}", w.span.start_line_col_one_index().line, t);
+                    }
+                }
+            }
+            Err(p) => {
+                vcore::fastc::forget_thread_fastc();
+                println!("  PANIC {} {}", p.location, p.message.lines().next().unwrap_or(""));
+            }
+        }
+    }
+    vcore::fastc::drop_thread_fastc();
+    std::process::exit(0);
+}
